@@ -1160,6 +1160,10 @@ static int fault_check(int opc, const char* rel, int64_t off, int64_t len, int* 
 			if (shortp)
 				*shortp = 1;
 			break;
+		case FK_CORRUPT :
+			if (shortp)
+				*shortp = 2;
+			break;
 		}
 	}
 	return err;
@@ -1684,7 +1688,23 @@ ssize_t __wrap_write(int fd, const void* buf, size_t n)
 	if (!e || e->urandom)
 		return __real_write(fd, buf, n);
 	sim_yield();
-	err = fault_check(OPC_WRITE, sim_path_str(e->path), -1, n, 0);
+	{
+		int special = 0;
+		err = fault_check(OPC_WRITE, sim_path_str(e->path), -1, n, &special);
+		if (!err && special == 2 && n > 0) {
+			/* silent corruption: one byte altered on its way to the disk, the call succeeds */
+			unsigned char* copy = __real_malloc(n);
+			size_t at = sim_mix(C->run_seed, C->nev) % n;
+			memcpy(copy, buf, n);
+			copy[at] ^= (unsigned char)(1 + sim_mix(C->run_seed, at) % 255);
+			idx = mut_begin();
+			r = __real_write(fd, copy, n);
+			free(copy);
+			ev_add(EV_WRITE, EVF_MUT | EVF_FAULT, e->path, -1, n, res_of(r), 2)->mut = idx;
+			mut_end(idx);
+			return r;
+		}
+	}
 	idx = mut_begin();
 	if (err) {
 		errno = err;
